@@ -32,11 +32,11 @@ def run(ctx):
     names = json.loads(ctx.harness("vh-gemm", ["int8-kernels"]).strip().splitlines()[-1])
     ctx.cov["kernels"] = names
     if ctx.quick:
-        plan = [("16", None, 44, 1)]
-        nops = 150
+        plan = [("16", None, 36, 1)]
+        nops = 125
     else:
-        plan = [("16", None, 700, 20), ("1", "1", 120, 0)]
-        nops = 2500
+        plan = [("16", None, 400, 20), ("1", "1", 60, 0)]
+        nops = 1500
     bad_k, bad_o, traces, totals = [], [], [], {}
     for tag, nthreads, n, npairs in plan:
         env = {"RAYON_NUM_THREADS": nthreads} if nthreads else {}
